@@ -1463,6 +1463,14 @@ def rule_r10(chk, p, t):
     r.guard(fn.qualname, one)
 
 
+def rule_r11(chk, p, t):
+    # an impulse fires at its configured time: the stored Julian date reaches the integration event un-quantised
+    # (shared instance of C15.R7)
+    from rules import C15
+
+    C15.rule_r7(chk, p, t, rid="C01.R11", events=(("scheduled_impulse.ScheduledImpulseEvent", "impulse", ("start",)),))
+
+
 def run(chk, p, t):
     chk.explanation = (
         "Static decision of structural necessary conditions of C01 on the current source: (R1) window tiling "
@@ -1479,7 +1487,7 @@ def run(chk, p, t):
         "agent time equals the clock time before the tick when prunePropagateEvents runs (PropagateRegistration.generateSubmission)",
         "call resolution by the repo's annotations and class-hierarchy analysis",
     ]
-    for fn in (rule_r1, rule_r2, rule_r3, rule_r4, rule_r5, rule_r6, rule_r7, rule_r8, rule_r9, rule_r10):
+    for fn in (rule_r1, rule_r2, rule_r3, rule_r4, rule_r5, rule_r6, rule_r7, rule_r8, rule_r9, rule_r10, rule_r11):
         rid = "C01.R" + fn.__name__.split("_r")[-1]
         if not chk.wants(rid):
             continue
